@@ -32,3 +32,32 @@ REG.rec_props = {'Task': {'state': '_state', 'uid': '_uid', 'pilot': '_pilot'}}
 PilotObj = T.Rec('Pilot', _uid=T.Str, _state=OStr)
 REG.types['Pilot'] = PilotObj
 REG.rec_props['Pilot'] = {'uid': '_uid', 'state': '_state'}
+
+# -- agent scheduler ------------------------------------------------------------
+ORealT = T.Opt(T.Real)
+RO    = T.Rec('RO', index=T.Int, occupation=T.Real)
+SlotD = T.Rec('Slot', node_name=T.Str, node_index=T.Int, cores=T.List(RO),
+              gpus=T.List(RO), lfs=T.Int, mem=T.Int, version=T.Opt(T.Int))
+NodeD = T.RecD('Node', dict(index=T.Int, name=T.Str, cores=T.List(ORealT),
+              gpus=T.List(ORealT), lfs=T.Int, mem=T.Int))
+REG.types.update(RO=RO, Slot=SlotD, Node=NodeD)
+REG.optional_keys['Slot'] = {'version'}
+
+
+def _mk_RO(ex, node, st):
+    from pyvc.core import PyDict, coerce
+    from pyvc.calls import kw_args
+    kw = kw_args(ex, node, st)
+    return coerce(PyDict(kw), RO)
+
+
+def _mk_Slot(ex, node, st):
+    from pyvc.core import PyDict, coerce, lift
+    from pyvc.calls import kw_args
+    kw = kw_args(ex, node, st)
+    kw.setdefault('version', lift(1))
+    return coerce(PyDict(kw), SlotD)
+
+
+REG.constructors['RO'] = _mk_RO
+REG.constructors['Slot'] = _mk_Slot
